@@ -27,10 +27,14 @@ package queue
 //@ modifies ghost(q.$inits), ghost(q.$lastInitClean)
 //@ ensures q.$inits == old(q.$inits) + 1 && q.$lastInitClean == opts.CleanStart
 
+// What Add may touch is the store's own representation, the notifier's statistics and the packet-id limiter
+// (an expired in-flight entry releases its id); it does not touch the broker's tables, the connection objects, packets
+// being handled or the messages themselves (those components are listed under preserves).
 //@ func (Store).Add
 //@ params q, elem
 //@ requires elem != nil
 //@ modifies heap, ghost(q.$adds)
+//@ preserves all(server.server.*), all(server.client.* - pl), all(server.ClientOptions.*), all(server.Hooks.*), all(server.SubscribeRequest.*), all(gmqtt.Subscription.*), all(gmqtt.Message.*), all(codes.Error.*), all(Elem.*), all(Publish.*), all(packets.Subscribe.*), all(packets.Suback.*), all(packets.Properties.*), allelems(packets.Topic), allelems(codes.Code), allelems(elem(subscription.SubscribeResult)), allelems(*gmqtt.Message), allelems(uint32), allmaps(string, elem(fieldtype(server.SubscribeRequest.Subscriptions))), all(elem(elem(fieldtype(server.SubscribeRequest.Subscriptions))).*)
 //@ ensures q.$adds == old(q.$adds) + 1
 
 // ElemExpiry: an element is expired iff it has an expiry time and now is after it.
